@@ -13,7 +13,7 @@ RULE = ('Base documents: fixtures, generated valid documents, documents with 1-4
         'acknowledgement are identical for the original and every re-encoding. non-trivial = distinct (document, encoding) pairs where the document has >=1 error.')
 ASSUMPTIONS = ['message strings and HTML are not compared (they legitimately contain delimiters)', 'source line numbers are compared as segment ordinals, which re-encoding preserves',
                'acknowledgement envelope lines (ISA/GS/ST/SE/GE/IEA, which carry timestamps and generated control numbers) are excluded']
-REQUIRED_COUNTERS = ['bases:later-isa-not-106-characters', 'bases:with-data-less-segment', 'bases:with-empty-or-blank-segment', 'bases:with-trailing-separator-or-leading-blank', 'bases:longer-than-one-read-buffer', 'bases', 'bases:with-errors', 'bases:valid', 'encodings', 'encodings:control-char-delimiter', 'encodings:eol:', 'encodings:eol:\\r\\n', 'encodings:eol:\\n', 'encodings:eol:mixed', 'bases:5010-with-other-repetition-separator', 'bases:repeatable-composite-with-several-components', 'encodings:caret-between-components']
+REQUIRED_COUNTERS = ['bases:with-TA1', 'bases:later-isa-not-106-characters', 'bases:with-data-less-segment', 'bases:with-empty-or-blank-segment', 'bases:with-trailing-separator-or-leading-blank', 'bases:longer-than-one-read-buffer', 'bases', 'bases:with-errors', 'bases:valid', 'encodings', 'encodings:control-char-delimiter', 'encodings:eol:', 'encodings:eol:\\r\\n', 'encodings:eol:\\n', 'encodings:eol:mixed', 'bases:5010-with-other-repetition-separator', 'bases:repeatable-composite-with-several-components', 'encodings:caret-between-components']
 MIN_CASES = {'quick': 900, 'thorough': 30000}
 WATCHDOG_S = {'quick': 1200, 'thorough': 7200}
 
@@ -139,6 +139,9 @@ def run(ctx):
             if f is not None:
                 doc = f.doc
                 kinds.append(f.kind)
+        if k % 6 == 1:
+            doc = gen_doc.add_ta1(doc, ['after-isa', 'before-iea'][(k // 6) % 2])
+            ctx.count('bases:with-TA1')
         if e['icvn'] == '00501' and rng.random() < 0.4:
             # a 5010 header naming another repetition separator than '^' (nothing in these documents repeats): '^' is then a character like any
             # other and, under the extended set, an admissible component separator
